@@ -67,6 +67,10 @@ CHECKS = {
          "Exhaustive: every name in the default registry enumerated at run time (135 core names + 112 stdlib functions) x k = 0..max+2 arguments (bare and lisp:-qualified, keyword tails for &key), all 72 defun formals lists x k = 0..6, and 31 shadowing context shapes x 9 builtin names x 6 shadow values x k = 0..4; plus sampled variants under wrappers. A call is 'reported' when builtin-arity / if-arity / user-arity flags the call form; it 'fails binding' when evaluation ends in one of the binder's errors with the callee on top of the error's call stack; which binding a call reaches is decided by evaluating (probe in the shadow body, control run).",
          "Binding failure is recognised by the binder's message classes and the error's call stack; &key signatures and stdlib names are judged in one direction only; local functions that fail binding owe no report (notes/NOTES-C19.md).",
          "DESIGN.md 4/C19"),
+ "C20": ("exploration", "reference-model runtime monitor over real sandboxes: an in-memory symlink-aware file-system model decides which file a location may serve; syscall-level monitor (strace) and the real elps run binary in the driver phase",
+         "Sandboxes built from a model tree (sibling directories sharing a name prefix, files with unique markers and probes inside and outside, symlinks to files and directories at first/middle/last component, chains, loops, a root that is a symlink) under a temp directory; every location string to depth 3-4 over names, '.', '..', link names, absolute/relative, doubled and trailing separators, in 7 loading contexts, through LoadSource, LoadFile, LoadFileContext and nested (load-file) for RelativeFileSystemLibrary (absolute, relative and symlinked roots), FSLibrary over MapFS, os.Root, os.DirFS and a recording wrapper; a file may be served only if the model-resolved real path is under the model-resolved root and then it must be that file's marker; nothing outside may be evaluated; the driver repeats a sub-list through the real `elps run --root-dir` binary and re-runs one worker under strace asserting no successful open of an outside file during refused loads.",
+         "Bare FSLibrary{os.DirFS} built by the harness itself is counted but not judged (os.DirFS documents that it follows links; the property's fs.FS sentence concerns paths asked of the file system); invalid names forwarded to the fs.FS are counted, only data served for them would be a violation (notes/NOTES-C20.md).",
+         "DESIGN.md 4/C20"),
 }
 
 ALL = ["C%02d" % i for i in range(1, 21)]
